@@ -23,7 +23,10 @@ PROPERTY = "C01"
 RULE = ("cases = (generated type universe, method signature, conformant argument and return "
         "values, protocol, validator, spelling variant); requests written by a schema-driven "
         "reference encoder, validated by libxml2, run through the server pipeline; oracle = "
-        "recorded arguments + reference-decoded response (+ zeep, + spyne client). "
+        "recorded arguments + reference-decoded response (+ zeep, + spyne client); plus a `dfl` "
+        "part: a repeated member declared with a generated default list, 1-3 requests with "
+        "non-empty lists on one application, the function must see and the reply must carry "
+        "exactly the sent list. "
         "Non-trivial = some argument and some return value is non-None and the case has a "
         "nested object / array>=2 / XML attribute / multiple returns / non-wrapped style / "
         "inheritance / facet; distinct = hash of (signature shape, value classes, config)")
